@@ -44,10 +44,17 @@ impl TxDependency {
             return None;
         }
         let index = self.index.fetch_add(1, Ordering::Relaxed);
+        #[cfg(feature = "verif")]
+        crate::verif::point(crate::verif::Point::DepNextAfterFetch, index, 0);
         if index >= self.num_txs {
             return None;
         }
         let mut state = self.dependent_state[index].lock();
+        #[cfg(feature = "verif")]
+        crate::verif::event(crate::verif::Event::DepNext {
+            tx: index,
+            claimed: state.onboard && state.dependency.is_none(),
+        });
         if state.onboard && state.dependency.is_none() {
             state.onboard = false;
             return Some(index)
@@ -70,13 +77,31 @@ impl TxDependency {
             return next;
         }
         for &tx in affects.iter() {
+            #[cfg(feature = "verif")]
+            crate::verif::point(crate::verif::Point::DepRemoveBetweenLocks, txid, tx);
             let mut dependent = self.dependent_state[tx].lock();
+            #[cfg(feature = "verif")]
+            if dependent.dependency == Some(txid) {
+                crate::verif::event(crate::verif::Event::DepCleared {
+                    tx,
+                    by: txid,
+                    onboard: dependent.onboard,
+                });
+            } else {
+                crate::verif::event(crate::verif::Event::DepStaleEdge {
+                    tx,
+                    by: txid,
+                    current: dependent.dependency,
+                });
+            }
             if dependent.dependency == Some(txid) {
                 dependent.dependency = None;
                 if dependent.onboard {
                     if pop_next && tx == txid + 1 && self.index.load(Ordering::Relaxed) > tx {
                         dependent.onboard = false;
                         next = Some(tx);
+                        #[cfg(feature = "verif")]
+                        crate::verif::event(crate::verif::Event::DepHandoff { tx });
                     } else {
                         self.index.fetch_min(tx, Ordering::Relaxed);
                     }
@@ -92,6 +117,12 @@ impl TxDependency {
         let next = txid + 1;
         if next < self.num_txs {
             let mut state = self.dependent_state[next].lock();
+            #[cfg(feature = "verif")]
+            crate::verif::event(crate::verif::Event::DepCommitRelease {
+                tx: next,
+                onboard: state.onboard,
+                previous: state.dependency,
+            });
             if state.onboard {
                 state.dependency = None;
                 self.index.fetch_min(next, Ordering::Relaxed);
@@ -106,9 +137,17 @@ impl TxDependency {
     /// immediately; otherwise committing `txid - 1` releases it through [`Self::commit`].
     pub(crate) fn key_tx(&self, txid: TxId, commit_idx: PublishedCursorReader<'_>) {
         let mut state = self.dependent_state[txid].lock();
+        #[cfg(feature = "verif")]
+        crate::verif::point(crate::verif::Point::DepKeyAfterRead, txid, 0);
         if txid > commit_idx.get() {
             state.dependency = Some(txid);
         }
+        #[cfg(feature = "verif")]
+        crate::verif::event(crate::verif::Event::DepKey {
+            tx: txid,
+            barrier: state.dependency == Some(txid),
+            was_onboard: state.onboard,
+        });
         if !state.onboard {
             state.onboard = true;
         }
@@ -132,8 +171,16 @@ impl TxDependency {
                 "dependency transaction {dep_id} must precede dependent transaction {txid}",
             );
             let mut dep = self.affect_txs[dep_id].lock();
+            #[cfg(feature = "verif")]
+            crate::verif::point(crate::verif::Point::DepAddBetweenLocks, txid, dep_id);
             let mut dep_state = self.dependent_state[dep_id].lock();
             let mut state = self.dependent_state[txid].lock();
+            #[cfg(feature = "verif")]
+            crate::verif::event(crate::verif::Event::DepAdd {
+                tx: txid,
+                dep: Some(dep_id),
+                was_onboard: state.onboard,
+            });
             state.dependency = Some(dep_id);
             if !state.onboard {
                 state.onboard = true;
@@ -148,12 +195,45 @@ impl TxDependency {
             }
         } else {
             let mut state = self.dependent_state[txid].lock();
+            #[cfg(feature = "verif")]
+            crate::verif::event(crate::verif::Event::DepAdd {
+                tx: txid,
+                dep: None,
+                was_onboard: state.onboard,
+            });
             if !state.onboard {
                 state.onboard = true;
                 state.dependency = None;
                 self.index.fetch_min(txid, Ordering::Relaxed);
             }
         }
+    }
+}
+
+#[cfg(feature = "verif")]
+impl TxDependency {
+    /// `(onboard, dependency)` per transaction and the reverse edges, each read under its own
+    /// lock (`None` when the lock could not be taken within a short timeout).
+    #[allow(clippy::type_complexity)]
+    pub(crate) fn verif_dump(&self) -> (Vec<Option<(bool, Option<TxId>)>>, Vec<Option<Vec<TxId>>>) {
+        let timeout = std::time::Duration::from_millis(200);
+        let states = self
+            .dependent_state
+            .iter()
+            .map(|state| state.try_lock_for(timeout).map(|s| (s.onboard, s.dependency)))
+            .collect();
+        let affects = self
+            .affect_txs
+            .iter()
+            .map(|set| {
+                set.try_lock_for(timeout).map(|s| {
+                    let mut v: Vec<TxId> = s.iter().copied().collect();
+                    v.sort_unstable();
+                    v
+                })
+            })
+            .collect();
+        (states, affects)
     }
 }
 
@@ -210,33 +290,6 @@ mod tests {
         assert_eq!(dependencies.next(), None);
         commit_cursor.store(1, Ordering::Release);
         dependencies.commit(0);
-#[cfg(feature = "verif")]
-impl TxDependency {
-    /// `(onboard, dependency)` per transaction and the reverse edges, each read under its own
-    /// lock (`None` when the lock could not be taken within a short timeout).
-    #[allow(clippy::type_complexity)]
-    pub(crate) fn verif_dump(&self) -> (Vec<Option<(bool, Option<TxId>)>>, Vec<Option<Vec<TxId>>>) {
-        let timeout = std::time::Duration::from_millis(200);
-        let states = self
-            .dependent_state
-            .iter()
-            .map(|state| state.try_lock_for(timeout).map(|s| (s.onboard, s.dependency)))
-            .collect();
-        let affects = self
-            .affect_txs
-            .iter()
-            .map(|set| {
-                set.try_lock_for(timeout).map(|s| {
-                    let mut v: Vec<TxId> = s.iter().copied().collect();
-                    v.sort_unstable();
-                    v
-                })
-            })
-            .collect();
-        (states, affects)
-    }
-}
-
         assert_eq!(dependencies.next(), Some(1));
 
         let commit_cursor = AtomicUsize::new(1);
